@@ -832,6 +832,18 @@ pub async fn drive(case: &Case) -> Outcome {
         ah.add(*n);
     }
     crate::LAST_HASHES.with(|h| h.set((wire_hash, ah.get())));
+    {
+        let mut per_actor: Vec<(&String, &String, u64)> = l.events.iter().map(|(_, a, w, n)| (a, w, *n)).collect();
+        // stable per actor: events of one actor keep their order, actors are grouped
+        per_actor.sort_by(|x, y| x.0.cmp(y.0));
+        let mut uh = TraceHash::default();
+        for (a, w, n) in per_actor {
+            uh.add_str(a);
+            uh.add_str(w);
+            uh.add(n);
+        }
+        crate::LAST_UNTIMED.with(|h| h.set(uh.get()));
+    }
     for (t, a, w, n) in &l.events {
         th.add(*t);
         th.add_str(a);
